@@ -89,6 +89,14 @@ def main():
     ncorr = 0
     dist = {}
     reference_bin = {}
+    # what hexasm must write for the accepted assembly sources: the assembler model's file bytes (asm_tool of Properties_C14.v)
+    import asmcommon as A
+    asm_srcs = [src for cls, src, ev in ASM_SOURCES if cls == 'accept' and len(src) < 100000]
+    mres, mrc, merr = A.run_model(hv, asm_srcs, base)
+    for src, lines in zip(asm_srcs, mres):
+        fb = A.parse_file_line(lines or [])
+        if fb is not None:
+            reference_bin[('hexasm', src)] = fb
     for k, (tool, cls, ev, argv, src, exists) in enumerate(cases):
         d = os.path.join(base, 'c%d' % k)
         os.makedirs(d)
